@@ -6,12 +6,17 @@ WS = [b" ", b"\n", b"\t", b"\r", b"\r\n", b"  ", b" \n ", b"\t\t"]
 BOUNDARY_INTS = [0, 1, -1, 9, 10, 255, 256, 65535, 2**31 - 1, 2**31, -2**31, 2**32, 2**53 - 1, 2**53, 2**53 + 1,
                  2**53 + 2, -(2**53) - 1, 2**63 - 1, 2**63, 2**63 + 1, -(2**63), -(2**63) + 1, 2**64 - 1, 2**64 - 2,
                  10**15, 10**16 + 1, 10**18, 10**19, 12345678901234567890, 9007199254740993, 4611686018427387905]
-BIG_INTS = [2**64, 2**64 + 1, -(2**63) - 1, 10**20, 10**25 + 7, 2**70 + 12345, -(10**22) - 3, 340282366920938463463374607431768211456]
+BIG_INTS = [2**64, 2**64 + 1, -(2**63) - 1, 10**20, 10**25 + 7, 2**70 + 12345, -(10**22) - 3, 340282366920938463463374607431768211456,
+            # the band between the two integer representations and just outside them, on both sides
+            -(10**19), -15 * 10**18, -(2**63) - 2049, -(2**64) + 4096, -(2**64), -(2**64) - 5000, 2**64 + 4096, 2**65, -(2**65)]
 EXTREME_DOUBLES = ["5e-324", "4.9e-324", "1e-320", "2.2250738585072014e-308", "2.225073858507201e-308",
                    "1.7976931348623157e308", "1.7976931348623157E+308", "1e308", "1e-308", "0.1", "0.2", "0.30000000000000004",
                    "1e-7", "123456.789e3", "1.5", "-2.5", "3.141592653589793", "2.718281828459045235360287",
                    "0.1000000000000000055511151231257827", "1e22", "1e23",
-                   "123456789012345678e-2", "0.000001", "1E-5", "-1e-300", "6.02214076e23", "1.0e+2"]
+                   "123456789012345678e-2", "0.000001", "1E-5", "-1e-300", "6.02214076e23", "1.0e+2",
+                   # whole doubles around the limits of the two integer representations, spelled with fraction / exponent
+                   "-1e19", "-9.3e18", "-1.5E19", "-10000000000000000000.0", "1e19", "1.8446744073709552e19", "-9.223372036854775808e18",
+                   "9.223372036854775808e18", "1.8446744073709551615e19", "-1.8446744073709552e19", "-1.7e19", "1.9e19", "-9.2233720368547758e18"]
 
 CP_CLASSES = [
     (lambda r: r.randrange(0x20, 0x7F), 8),                       # printable ASCII
